@@ -122,6 +122,7 @@ func c06Run(c c06Case) (v *verdict, labels []string, pattern string, nontrivial 
 	var pat []string
 	seen := map[string]bool{}
 	var lastBuild *c06Step
+	dirty := false // an edit happened after the last build
 	for i, step := range c.Steps {
 		switch step.Op {
 		case "edit":
@@ -140,10 +141,11 @@ func c06Run(c c06Case) (v *verdict, labels []string, pattern string, nontrivial 
 			hist = append(hist, fmt.Sprintf("step %d: edit %s in package %d", i, step.Kind, step.Pkg%len(c.Spec.Pkgs)))
 			pat = append(pat, "edit:"+step.Kind)
 			labels = append(labels, "edit:"+step.Kind)
+			dirty = true
 			continue
 		case "rebuild-same":
-			if lastBuild == nil {
-				continue
+			if lastBuild == nil || dirty {
+				continue // something changed since the last build: not a no-change rebuild
 			}
 			out := filepath.Join(dir, "same.bin")
 			r := shared.GarbleX(c06Config(lastBuild.Cfg), src, nil, nil, append([]string{"build", "-v"}, c06Args(*lastBuild, c.Spec, out)[1:]...)...)
@@ -164,6 +166,7 @@ func c06Run(c c06Case) (v *verdict, labels []string, pattern string, nontrivial 
 		cfg := c06Config(step.Cfg)
 		s := step
 		lastBuild = &s
+		dirty = false
 		out := filepath.Join(dir, fmt.Sprintf("shared%d.bin", i))
 		desc := fmt.Sprintf("step %d: garble %s %s", i, strings.Join(cfg.Flags(), " "), strings.Join(c06Args(step, c.Spec, "out")[:len(c06Args(step, c.Spec, "out"))-3], " "))
 		hist = append(hist, desc)
